@@ -236,9 +236,45 @@ class Sim(RxMixin):
         if not eq:
             raise Violation('derived-mismatch:eq', 'mol != rebuilt')
         model.astereo, model.bstereo = ast, bst
+        if model.aromatic:
+            self._check_kekule_twin(mol, where)
         if rng.random() < self.cfg.get('sparse_p', 0.0):
             mol.__dict__ = saved   # as if the caller had not read anything: cache state before the check
             self.probes['sparse_restore'] += 1
+
+    def _check_kekule_twin(self, mol, where):
+        """Hydrogens of aromatic atoms are carried into the rebuilt twin, so the comparison above cannot see a wrong one.
+        A Kekule form can: kekule() on a copy must give a molecule whose hydrogen counts and marks equal what a rebuild of
+        that Kekule structure computes from scratch."""
+        from chython.exceptions import InvalidAromaticRing
+        c = mol.copy()
+        try:
+            c.kekule()
+        except InvalidAromaticRing:
+            self.probes['kekule_of_thiele_refused'] += 1
+            return
+        except Exception as e:
+            raise Violation(f'unexpected-exception:kekule-of-copy:{type(e).__name__}', f'{where}: {e!r}')
+        if any(b.order == 4 for *_, b in c.bonds()):
+            self.probes['kekule_left_aromatic_bonds'] += 1
+            return
+        h1 = {n: a.implicit_hydrogens for n, a in mol.atoms()}
+        h2 = {n: a.implicit_hydrogens for n, a in c.atoms()}
+        if h1 != h2:
+            d = {n: (h1.get(n), h2.get(n)) for n in h1 if h1.get(n) != h2.get(n)}
+            raise Violation('derived-mismatch:kekule-twin:hydrogens', f'{where}: hydrogen counts (Thiele form, its Kekule form): {d}')
+        tmp = Model()
+        resync(tmp, c)
+        ast, bst = stereo_of(c)
+        try:
+            r = rebuild(c, tmp, ast, bst)
+        except Exception:
+            return
+        for name in ('atom_labels', 'str', 'fmt_h'):
+            v1, v2 = observe(c, name), observe(r, name)
+            if v1 != v2:
+                raise Violation(f'derived-mismatch:kekule-twin:{name}', f'{where}: Kekule form of the Thiele form: mol={_short(v1)} rebuilt={_short(v2)}')
+        self.probes['kekule_twin_checked'] += 1
 
     def check_all(self, acting, touched, c, where=''):
         rng = random.Random(c)
